@@ -170,11 +170,13 @@ CLAIMED["C10"] = {
              "regrouped) and the grammar's precedence-climbing parse; TLC checks Parse(Emit(Build(b))) = Meaning(b) for every term of depth "
              "<= 2. The same terms are built with the real constructors, emitted by the real emitter and by the Neo4j query builder's "
              "Render, parsed by the real parser, and TLC validates the parsed tree against the term's meaning; kind matchers with 1-3 kinds "
-             "are checked for their all-of / any-of meaning."),
+             "are checked for their all-of / any-of meaning.  Terms are also built with the bare cypher model constructors, rendered twice from one "
+             "criteria value, and over relationship atoms (truth-table equivalence, because the Neo4j builder moves relationship kind tests into "
+             "the pattern).  QueryShape.tla enumerates 14 954 whole-query descriptors (returned items, DISTINCT, ORDER BY, SKIP/LIMIT, updating "
+             "clauses; node and relationship queries) that are built, rendered, parsed and read back."),
     "design_ref": "DESIGN.md 4/C07+C10",
-    "note": ("Covers boolean criteria (And/Or/Xor/Not over comparison, null, in, kind atoms) and kind matchers. NOT covered yet: projections, "
-             "ordering, pagination, updates, literal type/value fidelity; the Neo4j builder's deliberate rewrite of negated string predicates is "
-             "excluded."),
+    "note": ("NOT covered: create / merge patterns, literal types other than string and int, shortest-path builders; the Neo4j builder's deliberate "
+             "rewrite of negated string predicates is excluded."),
     "technique": "TLA+ emit/parse/build model checked exhaustively over builder terms + the same terms replayed through the real builder, emitter and parser with TLC trace validation",
 }
 
